@@ -847,6 +847,14 @@ def forced_cases():
     out.append(dict(base, kind='looplambda', ninst=3))
     out.append(dict(base, kind='factory_loop', ninst=3, body='for'))
     out.append(dict(base, kind='toplevel'))
+    # one code object, three namespaces (different __globals__), converted in sequence with equal options
+    out.append(dict(base, kind='toplevel', namespaces=3, global_write=True, decorated=False))
+    out.append(dict(base, kind='toplevel', namespaces=2, global_write=False, api='convert', body='for'))
+    # bound methods whose receiver is falsy, through every route (to_graph, convert wrapper, converted caller)
+    out.append(dict(base, kind='method', super='both', falsy_self='len', api='convert'))
+    out.append(dict(base, kind='method', super=None, falsy_self='bool'))
+    out.append(dict(base, kind='method', super='super', falsy_self='len', recursive=False,
+                    params=[P('q0', 'pos'), P('k0', 'kwonly', 'list')]))
     out.append(dict(base, kind='nested', directive='global'))
     out.append(dict(base, kind='nested', directive='closure_used'))
     out.append(dict(base, kind='nested', future_annotations=True,
